@@ -12,65 +12,40 @@ open Anthem.Asp (isWs skip stripPrefix isIdChar isNonzeroDigit SymName NoId Stop
 
 /-! ## well-formedness -/
 
-/-- none of the three prefix keywords -/
-def KwFree (l : List Char) : Prop :=
-  l ≠ ['n', 'o', 't'] ∧ l ≠ ['f', 'o', 'r', 'a', 'l', 'l'] ∧ l ≠ ['e', 'x', 'i', 's', 't', 's']
+/-- integer and general terms: names of the grammar's lexical shape -/
+abbrev ITerm.Safe (t : ITerm) : Prop := ITerm.WF t
+abbrev GTerm.Safe (t : GTerm) : Prop := GTerm.WF t
 
-def ITerm.Safe : ITerm → Prop
-  | .num _ => True
-  | .fc c => SymName c.toList ∧ KwFree c.toList
-  | .var v => UVName v.toList
-  | .neg a => ITerm.Safe a
-  | .bin _ l r => ITerm.Safe l ∧ ITerm.Safe r
+/-- the name at the very start of an atomic formula is not `not` (the parser would have read a
+    negation there); `not$i`, `not$g`, `not$s` are fine since fix 2ca6488 -/
+def AtomicF.NotFirst : AtomicF → Prop
+  | .atom a => a.pred.toList ≠ ['n', 'o', 't']
+  | .cmp (.symb (.sym s)) _ => s.toList ≠ ['n', 'o', 't']
+  | _ => True
 
-def GTerm.Safe : GTerm → Prop
-  | .inf | .sup => True
-  | .fc c => SymName c.toList ∧ KwFree c.toList
-  | .var v => UVName v.toList
-  | .int t => ITerm.Safe t
-  | .symb (.sym s) => SymName s.toList ∧ KwFree s.toList
-  | .symb (.fc c) => SymName c.toList ∧ KwFree c.toList
-  | .symb (.var v) => UVName v.toList
+def AtomicF.Safe (a : AtomicF) : Prop := AtomicF.WF a ∧ AtomicF.NotFirst a
 
-def AtomicF.Safe : AtomicF → Prop
-  | .tru | .fls => True
-  | .atom a => (SymName a.pred.toList ∧ KwFree a.pred.toList) ∧ ∀ t ∈ a.args, GTerm.Safe t
-  | .cmp t gs => GTerm.Safe t ∧ gs ≠ [] ∧ ∀ g ∈ gs, GTerm.Safe g.term
-
-/-- every name has the grammar's lexical shape, no constant or predicate symbol is one of `not`,
-    `forall`, `exists`, every comparison has a guard and every quantifier a variable -/
+/-- every name has the grammar's lexical shape, no atomic formula starts with the name `not`, every
+    comparison has a guard and every quantifier a variable -/
 def Formula.Safe : Formula → Prop
   | .atomic a => AtomicF.Safe a
   | .not f => Formula.Safe f
   | .quant _ vs f => vs ≠ [] ∧ (∀ v ∈ vs, Var.WF v) ∧ Formula.Safe f
   | .bin _ l r => Formula.Safe l ∧ Formula.Safe r
 
-theorem ITerm.Safe.wf : ∀ {t : ITerm}, ITerm.Safe t → ITerm.WF t
-  | .num _, _ => trivial
-  | .fc _, h => h.1
-  | .var _, h => h
-  | .neg a, h => ITerm.Safe.wf (t := a) h
-  | .bin _ l r, h => ⟨ITerm.Safe.wf (t := l) h.1, ITerm.Safe.wf (t := r) h.2⟩
+theorem ITerm.Safe.wf {t : ITerm} (h : ITerm.Safe t) : ITerm.WF t := h
+theorem GTerm.Safe.wf {t : GTerm} (h : GTerm.Safe t) : GTerm.WF t := h
+theorem AtomicF.Safe.wf {a : AtomicF} (h : AtomicF.Safe a) : AtomicF.WF a := h.1
 
-theorem GTerm.Safe.wf {t : GTerm} (h : GTerm.Safe t) : GTerm.WF t := by
-  cases t with
-  | inf | sup => trivial
-  | fc c => exact h.1
-  | var v => exact h
-  | int it => exact ITerm.Safe.wf h
-  | symb st =>
-    cases st with
-    | sym s => exact h.1
-    | fc c => exact h.1
-    | var v => exact h
+theorem lexVariable_none_of_head (c : Char) (r : List Char) (h1 : c.isUpper = false) (h2 : c ≠ '_') :
+    lexVariable (c :: r) = none := by
+  simp [lexVariable, lexIntVar, lexSymVar, lexGenVar, lexUVar_none_of_head c r h1 h2]
 
-theorem AtomicF.Safe.wf {a : AtomicF} (h : AtomicF.Safe a) : AtomicF.WF a := by
-  cases a with
-  | tru | fls => trivial
-  | atom at' => exact ⟨h.1.1, fun t ht => (h.2 t ht).wf⟩
-  | cmp t gs => exact ⟨h.1.wf, h.2.1, fun g hg => (h.2.2 g hg).wf⟩
+theorem lexVariable_dollar (r : List Char) : lexVariable (skip ('$' :: r)) = none := by
+  rw [skip_cons_solid r ⟨by decide, by decide⟩]; exact lexVariable_none_of_head _ _ (by decide) (by decide)
 
-theorem safeName_of {l : List Char} (h : SymName l ∧ KwFree l) : SafeName l := ⟨h.1, h.2.1, h.2.2.1, h.2.2.2⟩
+theorem lexVariable_paren (r : List Char) : lexVariable (skip ('(' :: r)) = none := by
+  rw [skip_cons_solid r ⟨by decide, by decide⟩]; exact lexVariable_none_of_head _ _ (by decide) (by decide)
 
 /-! ## no prefix operator in front of an atomic formula -/
 
@@ -92,7 +67,7 @@ theorem prefixL_iterm : ∀ (t : ITerm), ITerm.Safe t → ∀ X : List Char, pre
   | fc c =>
     intro h X
     simp only [ITerm.printL, List.append_assoc]
-    exact prefixL_name _ _ (safeName_of h) (noId_cons _ (by decide))
+    exact prefixL_name _ _ h (Or.inr ⟨_, rfl⟩) (noId_cons _ (by decide)) (lexVariable_dollar _)
   | var v => intro h X; simp only [ITerm.printL, List.append_assoc]; exact prefixL_uvName _ _ h
   | neg a _ => intro _ X; exact prefixL_head '-' _ (by decide) (by decide) (by decide)
   | bin op l r ihl _ =>
@@ -104,20 +79,23 @@ theorem prefixL_iterm : ∀ (t : ITerm), ITerm.Safe t → ∀ X : List Char, pre
     · simp only [hb, parenLL, decide_false, Bool.false_eq_true, if_false]
       exact ihl h.1 _
 
-theorem prefixL_gterm (t : GTerm) (ht : GTerm.Safe t) (Y : List Char) (hY : NoId Y) :
+theorem prefixL_gterm (t : GTerm) (ht : GTerm.Safe t) (Y : List Char) (hY : NoId Y) (hv : lexVariable (skip Y) = none)
+    (hfirst : ∀ s, t = .symb (.sym s) → s.toList ≠ ['n', 'o', 't']) :
     prefixL (GTerm.printL t ++ Y) = none := by
   cases t with
   | inf => exact prefixL_head '#' _ (by decide) (by decide) (by decide)
   | sup => exact prefixL_head '#' _ (by decide) (by decide) (by decide)
-  | fc c => simp only [GTerm.printL, List.append_assoc]; exact prefixL_name _ _ (safeName_of ht) (noId_cons _ (by decide))
+  | fc c =>
+    simp only [GTerm.printL, List.append_assoc]
+    exact prefixL_name _ _ ht (Or.inr ⟨_, rfl⟩) (noId_cons _ (by decide)) (lexVariable_dollar _)
   | var v => exact prefixL_uvName _ _ ht
   | int it => exact prefixL_iterm it ht Y
   | symb st =>
     cases st with
-    | sym s => exact prefixL_name _ _ (safeName_of ht) hY
+    | sym s => exact prefixL_name _ _ ht (Or.inl (hfirst s rfl)) hY hv
     | fc c =>
       simp only [GTerm.printL, STerm.printL, List.append_assoc]
-      exact prefixL_name _ _ (safeName_of ht) (noId_cons _ (by decide))
+      exact prefixL_name _ _ ht (Or.inr ⟨_, rfl⟩) (noId_cons _ (by decide)) (lexVariable_dollar _)
     | var v => simp only [GTerm.printL, STerm.printL, List.append_assoc]; exact prefixL_uvName _ _ ht
 
 theorem guardsPrintL_noId (gs : List Guard) (hne : gs ≠ []) (rest : List Char) : NoId (guardsPrintL gs ++ rest) := by
@@ -125,21 +103,33 @@ theorem guardsPrintL_noId (gs : List Guard) (hne : gs ≠ []) (rest : List Char)
   | nil => exact absurd rfl hne
   | cons g gs => exact noId_cons _ (by decide)
 
-theorem prefixL_atomic (a : AtomicF) (ha : AtomicF.Safe a) (rest : List Char) (hr : NoId rest) :
-    prefixL (AtomicF.printL a ++ rest) = none := by
+theorem guardsPrintL_noVar (gs : List Guard) (hne : gs ≠ []) (rest : List Char) :
+    lexVariable (skip (guardsPrintL gs ++ rest)) = none := by
+  cases gs with
+  | nil => exact absurd rfl hne
+  | cons g gs =>
+    simp only [guardsPrintL, List.cons_append, List.append_assoc, skip_space]
+    rw [skip_relation]
+    cases g.rel <;> exact lexVariable_none_of_head _ _ (by decide) (by decide)
+
+theorem prefixL_atomic (a : AtomicF) (ha : AtomicF.Safe a) (rest : List Char) (hr : NoId rest)
+    (hv : lexVariable (skip rest) = none) : prefixL (AtomicF.printL a ++ rest) = none := by
   cases a with
   | tru => exact prefixL_head '#' _ (by decide) (by decide) (by decide)
   | fls => exact prefixL_head '#' _ (by decide) (by decide) (by decide)
   | atom at' =>
     obtain ⟨pred, args⟩ := at'
     cases args with
-    | nil => simp only [AtomicF.printL, Atom.printL, List.isEmpty_nil, if_true]; exact prefixL_name _ _ (safeName_of ha.1) hr
+    | nil =>
+      simp only [AtomicF.printL, Atom.printL, List.isEmpty_nil, if_true]
+      exact prefixL_name _ _ ha.1.1 (Or.inl ha.2) hr hv
     | cons t ts =>
       simp only [AtomicF.printL, Atom.printL, List.isEmpty_cons, Bool.false_eq_true, if_false, List.append_assoc]
-      exact prefixL_name _ _ (safeName_of ha.1) (noId_cons _ (by decide))
+      exact prefixL_name _ _ ha.1.1 (Or.inl ha.2) (noId_cons _ (by decide)) (lexVariable_paren _)
   | cmp t gs =>
     simp only [AtomicF.printL, List.append_assoc]
-    exact prefixL_gterm t ha.1 _ (guardsPrintL_noId gs ha.2.1 rest)
+    refine prefixL_gterm t ha.1.1 _ (guardsPrintL_noId gs ha.1.2.1 rest) (guardsPrintL_noVar gs ha.1.2.1 rest) ?_
+    intro s e; subst e; exact ha.2
 
 /-! ## shapes of printed formulas -/
 
@@ -152,7 +142,7 @@ theorem AtomicF.printL_startsSolid (a : AtomicF) (ha : AtomicF.Safe a) : StartsS
     split
     · exact SymName.startsSolid ha.1.1
     · exact (SymName.startsSolid ha.1.1).append _
-  | cmp t gs => exact (GTerm.printL_startsSolid t ha.1.wf).append _
+  | cmp t gs => exact (GTerm.printL_startsSolid t ha.1.1).append _
 
 theorem Formula.printL_startsSolid : ∀ (F : Formula), Formula.Safe F → StartsSolid (Formula.printL F)
   | .atomic a, h => AtomicF.printL_startsSolid a h
@@ -342,7 +332,7 @@ theorem itermL_formula : ∀ (F : Formula), Formula.Safe F → ∀ (rest : List 
       rw [eX]
       exact Or.inl (itermL_of_ioperand_none _ (ioperand_gterm_nonint (.symb (.sym pred)) hs (fun _ e => by cases e) X hXf) f)
     | cmp t gs =>
-      obtain ⟨ht, hne, hgs⟩ := ha
+      obtain ⟨ht, hne, hgs⟩ := ha.1
       cases gs with
       | nil => exact absurd rfl hne
       | cons g gs =>
@@ -355,12 +345,12 @@ theorem itermL_formula : ∀ (F : Formula), Formula.Safe F → ∀ (rest : List 
           obtain ⟨f0, rfl⟩ : ∃ f0, f = f0 + 1 := ⟨f - 1, by omega⟩
           obtain ⟨hg1, _, hg3⟩ := gfollow_guard g (GTerm.printL g.term ++ (guardsPrintL gs ++ rest))
           have hf' : 2 * (ITerm.printL it ++ ' ' :: (Rel.printL g.rel ++ ' ' :: (GTerm.printL g.term ++ (guardsPrintL gs ++ rest)))).length + 1 < f0 + 1 := hf
-          have h := itermL_printL it ht.wf _ hg1.noId hg3 f0 (by omega)
+          have h := itermL_printL it ht _ hg1.noId hg3 f0 (by omega)
           refine Or.inr ⟨it, _, h, fun r3 => ?_⟩
           rw [skip_space, skip_relation]
           exact rel_not_paren _ _ _
         | inf | sup | fc _ | var _ | symb _ =>
-          exact Or.inl (itermL_of_ioperand_none _ (ioperand_gterm_nonint _ ht.wf (fun _ e => by cases e) _ (nameFollow_space _)) f)
+          exact Or.inl (itermL_of_ioperand_none _ (ioperand_gterm_nonint _ ht (fun _ e => by cases e) _ (nameFollow_space _)) f)
   | not g _ =>
     intro _ rest _ f _
     exact Or.inl (itermL_of_ioperand_none _ (ioperand_word _ symName_not _) f)
@@ -577,14 +567,16 @@ theorem guardsL_of_gterm_none (f : Nat) (rest : List Char) (rel : Rel) (r : List
 theorem atomicFollow_close (Y : List Char) : AtomicFollow (')' :: Y) :=
   ⟨gfollow_paren Y, ⟨⟨')', Y, rfl, by decide⟩, fun r => by
       rw [skip_cons_solid Y ⟨by decide, by decide⟩]; intro e; injection e with e1 _; exact absurd e1 (by decide)⟩,
-    fun f => guardsL_of_rel_none f _ (by rw [skip_cons_solid Y ⟨by decide, by decide⟩]; rfl)⟩
+    fun f => guardsL_of_rel_none f _ (by rw [skip_cons_solid Y ⟨by decide, by decide⟩]; rfl),
+    by rw [skip_cons_solid Y ⟨by decide, by decide⟩]; exact lexVariable_none_of_head _ _ (by decide) (by decide)⟩
 
 theorem atomicFollow_dot (Y : List Char) : AtomicFollow ('.' :: Y) :=
   ⟨⟨⟨'.', Y, rfl, by decide⟩, fun r' e => by injection e with e1 _; exact absurd e1 (by decide),
       Or.inl (by rw [skip_cons_solid Y ⟨by decide, by decide⟩]; rfl)⟩,
     ⟨⟨'.', Y, rfl, by decide⟩, fun r => by
       rw [skip_cons_solid Y ⟨by decide, by decide⟩]; intro e; injection e with e1 _; exact absurd e1 (by decide)⟩,
-    fun f => guardsL_of_rel_none f _ (by rw [skip_cons_solid Y ⟨by decide, by decide⟩]; rfl)⟩
+    fun f => guardsL_of_rel_none f _ (by rw [skip_cons_solid Y ⟨by decide, by decide⟩]; rfl),
+    by rw [skip_cons_solid Y ⟨by decide, by decide⟩]; exact lexVariable_none_of_head _ _ (by decide) (by decide)⟩
 
 theorem skip_conn (c : Conn) (Y : List Char) : skip (Conn.printL c ++ Y) = (Conn.printL c).tail ++ Y := by
   cases c <;>
@@ -601,7 +593,7 @@ theorem atomicFollow_conn (c : Conn) (Y : List Char) (hsafe : c = .rimp → Rimp
     intro r
     rw [skip_conn]
     cases c <;> (intro e; simp [Conn.printL] at e)
-  refine ⟨⟨hne, hnd, ?_⟩, ⟨hne, hnp⟩, ?_⟩
+  refine ⟨⟨hne, hnd, ?_⟩, ⟨hne, hnp⟩, ?_, ?_⟩
   · cases c with
     | imp => exact Or.inr ⟨' ' :: Y, by rw [skip_conn]; rfl⟩
     | and => exact Or.inl (by rw [skip_conn]; rfl)
@@ -621,5 +613,7 @@ theorem atomicFollow_conn (c : Conn) (Y : List Char) (hsafe : c = .rimp → Rimp
       rw [skip_cons_solid _ ⟨by decide, by decide⟩]
       refine gtermL_minus_none _ ?_
       exact hsafe rfl (2 * ('-' :: ' ' :: Y).length) (by simp only [List.length_cons]; omega)
+  · rw [skip_conn]
+    cases c <;> exact lexVariable_none_of_head _ _ (by decide) (by decide)
 
 end Anthem.Fol
